@@ -171,7 +171,9 @@ theorem prepInputs_bufs (h : Heap) (us : List Nat) (parent : Option Nat) :
   split
   · rw [hfold2]
   · rw [hfold2]
-    split <;> rfl
+    split
+    · exact (gradPropObj_frame _ _ _).1
+    · rfl
 
 theorem recordOp_bufs (h : Heap) (kind : Kind) (vars us : List Nat) (c : Bool) (constant : Option Bool)
     (wm : Option (Shape × List Bool)) (outArr : Arr) (parent : Option Nat) :
